@@ -14,6 +14,7 @@ import FontVerif.Lemmas.Round
 import FontVerif.Lemmas.TentLemmas
 import FontVerif.Lemmas.NormalizeLemmas
 import FontVerif.Lemmas.DeltaLemmas
+import FontVerif.Lemmas.IvsLemmas
 set_option linter.unusedVariables false
 namespace FontVerif.C11
 open FontVerif FontVerif.Tent
@@ -557,11 +558,6 @@ theorem user_to_normalized_avar_laws (minV defV maxV : Int) (maps : List (Int ×
 with the scalar as raw 16.16 bits (Section 1 proves that scalar is the specified tent).  The code
 accumulates in i64 and finishes with `((accum + 0x8000) >> 16) as i32`. -/
 
-/-- the row the reader decodes for `inner` in subtable `st` (`ItemVariationData::delta_set`). -/
-def decodedRow (st : SubTable) (inner : Nat) : List Int :=
-  deltaSet st.wordDeltaCount st.regionIndexes.length
-    (st.data.take (deltaRowLen st.wordDeltaCount st.regionIndexes.length * st.itemCount)) inner
-
 /-- **compute_delta_spec**: whenever `compute_delta` returns `Ok(v)` on a present subtable,
 `v` is the weighted sum of the decoded row's deltas with their regions' tent scalars, divided by
 2¹⁶ and rounded to nearest (ties up), then truncated to i32 exactly as `as i32` does. -/
@@ -688,5 +684,209 @@ example : computeDelta [[(0, 16384, 16384)], [(-16384, -16384, 0)]]
   decide
 example : specSum [[(0, 16384, 16384)], [(-16384, -16384, 0)]] [8192] [100, -10] [0, 1] = 100 * 32768 := by
   decide
+
+/-! ## 5. the variation-store builder: every delta set is retrievable
+
+`Ivs.retrieve b n outer inner` is what the *reader model* (Section 4's `decodedRow`, i.e.
+`ItemVariationData::delta_set`) gets from the built store for a `VariationIndex`, attributed to the
+builder's canonical regions through the pruned region list.  The partition of delta sets into
+encodings chosen by `Encoder::optimize` is a *parameter* (`groups`): the theorems hold for every
+partition, every member order and every order of the encodings. -/
+
+open Ivs
+
+/-- **row_roundtrip** (8/16/32-bit narrowing preserves values): if the shape covers the row
+(`for_val(value) ≤ column bits` in every column), reading back the bytes written by
+`encode_raw_delta_values` yields exactly the value of every active column — whatever follows. -/
+theorem row_roundtrip (s : List Nat) (row : List Int) (tail : List Nat) (hc : Covers s row)
+    (hi : RowI32 row) :
+    itemDeltas (nLong s) (longWords s) (indices s).length 0 (encodeRow s row ++ tail) =
+      (indices s).map (fun r => row.getD r 0) :=
+  row_decode s row tail hc hi
+
+/-- **merge_covers**: the shape of an encoding obtained by *any* sequence of `merge_with` over a
+set of members (their join) has one column per region, valid `ColumnBits`, and covers every
+member — the invariant that makes every optimiser choice safe. -/
+theorem merge_covers (n : Nat) (sets : List (List (Nat × Int))) :
+    (joinShape n sets).length = n ∧ ShapeOk (joinShape n sets) ∧
+    ∀ ds ∈ sets, Covers (joinShape n sets) (dense ds n) :=
+  joinShape_spec n sets
+
+/-- **scatter_rebuilds_row** (region pruning keeps every non-zero column): the active columns of a
+covering shape, put back at their canonical region indices, rebuild the whole dense row — columns
+dropped from the subtable were zero. -/
+theorem scatter_rebuilds_row (s : List Nat) (row : List Int) (n : Nat) (hs : ShapeOk s)
+    (hn : s.length = n) (hc : Covers s row) :
+    dense ((indices s).zip ((indices s).map fun r => row.getD r 0)) n = row :=
+  scatter_eq s row n hs hn hc
+
+/-- **builder_retrievable_core**: for any list of encodings that satisfies the model's
+well-formedness condition `EncsWf` (each shape covers its members), with fewer than 32768 regions
+and at most 65536 subtables: every member has a remap entry under its temporary id through which
+exactly its dense row is read back, and every remap entry reads back the row of a member with
+that id. -/
+theorem builder_retrievable_core (n : Nat) (encs : List Enc) (hwf : EncsWf n encs) (hn : n < 32768)
+    (hsub : (encodeAll n encs).subtables.length ≤ 65536) :
+    (∀ e ∈ encs, ∀ m ∈ e.2, ∃ o i, (m.2, o, i) ∈ (encodeAll n encs).remap ∧
+        retrieve (encodeAll n encs) n o i = some (dense m.1 n)) ∧
+    (∀ id o i, (id, o, i) ∈ (encodeAll n encs).remap → ∃ e ∈ encs, ∃ m ∈ e.2, m.2 = id ∧
+        retrieve (encodeAll n encs) n o i = some (dense m.1 n)) :=
+  encodeAll_retrievable n encs hwf hn hsub
+
+/-- the encodings `buildOptimized` hands to `encodeAll` are well-formed, whatever the partition. -/
+theorem optimized_encs_wf (n : Nat) (groups : List (List Member))
+    (hd : ∀ g ∈ groups, ∀ m ∈ g, ∀ rd ∈ m.1, inI32 rd.2) :
+    EncsWf n (((groups.map fun g => g.map fun m => (normalizeDeltaSet m.1, m.2)).map
+      fun g => (joinShape n (g.map (·.1)), g.mergeSort rowLe)).mergeSort
+        fun a b => shapeLe a.1 b.1) := by
+  intro e he
+  rw [List.mem_mergeSort] at he
+  obtain ⟨g', hg', rfl⟩ := List.mem_map.mp he
+  obtain ⟨g, hg, rfl⟩ := List.mem_map.mp hg'
+  have hj := joinShape_spec n ((g.map fun m => (normalizeDeltaSet m.1, m.2)).map (·.1))
+  refine ⟨hj.1, hj.2.1, ?_⟩
+  intro m hm
+  rw [List.mem_mergeSort] at hm
+  refine ⟨hj.2.2 m.1 (List.mem_map.mpr ⟨m, hm, rfl⟩), ?_⟩
+  obtain ⟨m0, hm0, rfl⟩ := List.mem_map.mp hm
+  exact dense_rowI32 _ n (fun rd hrd => hd g hg m0 hm0 rd (normalize_mem hrd))
+
+/-- **builder_retrievable** (de-duplicating storage, `VariationStoreBuilder::build` after
+`optimize`): for *every* partition `groups` of the added `(delta set, temporary id)` pairs into
+encodings — every merge/reorder the optimiser may choose — each added delta set is read back,
+through the `(outer, inner)` the remapping gives for its id, with exactly its per-region deltas
+(`dense (normalizeDeltaSet ds) n`: the delta for each canonical region, 0 where it names none);
+and nothing else is in the remapping.  Hypotheses: i32 deltas, fewer than 32768 regions, at most
+65536 subtables in the output. -/
+theorem builder_retrievable (n : Nat) (groups : List (List Member))
+    (hd : ∀ g ∈ groups, ∀ m ∈ g, ∀ rd ∈ m.1, inI32 rd.2) (hn : n < 32768)
+    (hsub : (buildOptimized n groups).subtables.length ≤ 65536) :
+    (∀ g ∈ groups, ∀ m ∈ g, ∃ o i, (m.2, o, i) ∈ (buildOptimized n groups).remap ∧
+        retrieve (buildOptimized n groups) n o i = some (dense (normalizeDeltaSet m.1) n)) ∧
+    (∀ id o i, (id, o, i) ∈ (buildOptimized n groups).remap → ∃ g ∈ groups, ∃ m ∈ g, m.2 = id ∧
+        retrieve (buildOptimized n groups) n o i = some (dense (normalizeDeltaSet m.1) n)) := by
+  have hwf := optimized_encs_wf n groups hd
+  have hcore := encodeAll_retrievable n _ hwf hn hsub
+  constructor
+  · intro g hg m hm
+    have he : (joinShape n ((g.map fun m => (normalizeDeltaSet m.1, m.2)).map (·.1)),
+        (g.map fun m => (normalizeDeltaSet m.1, m.2)).mergeSort rowLe) ∈
+        ((groups.map fun g => g.map fun m => (normalizeDeltaSet m.1, m.2)).map
+          fun g => (joinShape n (g.map (·.1)), g.mergeSort rowLe)).mergeSort
+            fun a b => shapeLe a.1 b.1 := by
+      rw [List.mem_mergeSort]
+      exact List.mem_map.mpr ⟨_, List.mem_map.mpr ⟨g, hg, rfl⟩, rfl⟩
+    have hmm : (normalizeDeltaSet m.1, m.2) ∈
+        (g.map fun m => (normalizeDeltaSet m.1, m.2)).mergeSort rowLe := by
+      rw [List.mem_mergeSort]; exact List.mem_map.mpr ⟨m, hm, rfl⟩
+    exact hcore.1 _ he _ hmm
+  · intro id o i h
+    obtain ⟨e, he, m, hm, hid, hr⟩ := hcore.2 id o i h
+    rw [List.mem_mergeSort] at he
+    obtain ⟨g', hg', rfl⟩ := List.mem_map.mp he
+    obtain ⟨g, hg, rfl⟩ := List.mem_map.mp hg'
+    rw [List.mem_mergeSort] at hm
+    obtain ⟨m0, hm0, rfl⟩ := List.mem_map.mp hm
+    exact ⟨g, hg, m0, hm0, hid, hr⟩
+
+/-- the subtable-count hypothesis is implied by simple size bounds on the partition. -/
+theorem optimized_subtable_count (n : Nat) (groups : List (List Member))
+    (h : ∀ g ∈ groups, g.length ≤ 65535) :
+    (buildOptimized n groups).subtables.length = groups.length := by
+  unfold buildOptimized
+  simp only []
+  rw [subtables_length, chunked_length_small]
+  · simp [List.length_mergeSort]
+  · intro e he
+    rw [List.mem_mergeSort] at he
+    obtain ⟨g', hg', rfl⟩ := List.mem_map.mp he
+    obtain ⟨g, hg, rfl⟩ := List.mem_map.mp hg'
+    simp [List.length_mergeSort]
+    exact h g hg
+
+/-- non-vacuity: a concrete partition satisfies every hypothesis, so its members are retrievable. -/
+example : ∃ o i, (0, o, i) ∈ (buildOptimized 3
+      [[([(0, 5), (2, -300)], 0)], [([(1, 70000)], 1), ([(1, 0)], 2)]]).remap ∧
+    retrieve (buildOptimized 3 [[([(0, 5), (2, -300)], 0)], [([(1, 70000)], 1), ([(1, 0)], 2)]]) 3 o i =
+      some (dense (normalizeDeltaSet [(0, 5), (2, -300)]) 3) :=
+  (builder_retrievable 3 [[([(0, 5), (2, -300)], 0)], [([(1, 70000)], 1), ([(1, 0)], 2)]]
+    (by decide) (by omega)
+    (by rw [optimized_subtable_count _ _ (by decide)]; decide)).1
+    [([(0, 5), (2, -300)], 0)] (by simp) ([(0, 5), (2, -300)], 0) (by simp)
+
+/-- **builder_retrievable_direct** (`new_with_implicit_indices` / `build_unoptimized`, used for
+HVAR): item `k` of at most 0xFFFF items is stored under the implicit index `(0, k)` — its id is
+`k` — and is read back with exactly its per-region deltas. -/
+theorem builder_retrievable_direct (n : Nat) (sets : List (List (Nat × Int)))
+    (hd : ∀ ds ∈ sets, ∀ rd ∈ ds, inI32 rd.2) (hn : n < 32768) (hlen : sets.length ≤ 65535)
+    (k : Nat) (hk : k < sets.length) :
+    (k, 0, k) ∈ (buildDirect n sets).remap ∧
+    retrieve (buildDirect n sets) n 0 k = some (dense (normalizeDeltaSet sets[k]) n) :=
+  buildDirect_retrievable n sets hd hn hlen k hk
+
+/-- **dedup_same_index**: `add_deltas` on the de-duplicating builder returns the same temporary id
+for two inputs iff they are equal as delta sets (after sorting; an all-zero set equals the empty
+one) — equal rows share one index, different rows never do. -/
+theorem dedup_same_index (sets : List (List (Nat × Int))) (hlen : sets.length ≤ 4294967296)
+    (i j : Nat) (a b : List (Nat × Int)) (ia ib : Nat) (hi : sets[i]? = some a) (hj : sets[j]? = some b)
+    (hia : (addAllDedup [] sets).2[i]? = some ia) (hib : (addAllDedup [] sets).2[j]? = some ib) :
+    ia = ib ↔ normalizeDeltaSet a = normalizeDeltaSet b :=
+  addAllDedup_ids_eq_iff sets hlen i j a b ia ib hi hj hia hib
+
+/-- **canonical_region_index**: `canonical_index_for_region` returns an index that names the region
+in the (append-only, duplicate-free) canonical region list. -/
+theorem canonical_region_index (all : List (List (Int × Int × Int))) (r : List (Int × Int × Int)) :
+    (canonIndex all r).1[(canonIndex all r).2]? = some r ∧
+    (∃ suffix, (canonIndex all r).1 = all ++ suffix) ∧
+    (all.Nodup → (canonIndex all r).1.Nodup) :=
+  canonIndex_spec all r
+
+/-- **add_then_build_retrievable** (end to end, the property's first sentence): add any sequence of
+delta sets with `add_deltas`; let the optimiser split the stored `(set, id)` entries into encodings
+in *any* way (`groups` is any rearrangement of the storage); build.  Then for the id returned for
+the `k`-th added set the remapping has an index, and *every* index the remapping holds for that id
+reads back exactly the per-region deltas of that set — however rows were merged, reordered,
+narrowed to 8/16/32 bits, and regions pruned and renumbered. -/
+theorem add_then_build_retrievable (n : Nat) (sets : List (List (Nat × Int)))
+    (groups : List (List Member)) (hperm : groups.flatten.Perm (addAllDedup [] sets).1)
+    (hd : ∀ ds ∈ sets, ∀ rd ∈ ds, inI32 rd.2) (hn : n < 32768) (hcount : sets.length ≤ 4294967296)
+    (hsub : (buildOptimized n groups).subtables.length ≤ 65536)
+    (k : Nat) (ds : List (Nat × Int)) (id : Nat) (hk : sets[k]? = some ds)
+    (hid : (addAllDedup [] sets).2[k]? = some id) :
+    (∃ o i, (id, o, i) ∈ (buildOptimized n groups).remap) ∧
+    ∀ o i, (id, o, i) ∈ (buildOptimized n groups).remap →
+      retrieve (buildOptimized n groups) n o i = some (dense (normalizeDeltaSet ds) n) := by
+  have hs := addAllDedup_spec sets [] storeInv_nil (by simpa using hcount)
+  have hent := hs.2.2.2 k ds id hk hid
+  -- members of the partition are storage entries
+  have hmemE : ∀ g ∈ groups, ∀ m ∈ g, m ∈ (addAllDedup [] sets).1 := by
+    intro g hg m hm
+    exact hperm.mem_iff.mp (List.mem_flatten.mpr ⟨g, hg, hm⟩)
+  have hd' : ∀ g ∈ groups, ∀ m ∈ g, ∀ rd ∈ m.1, inI32 rd.2 := by
+    intro g hg m hm rd hrd
+    rcases addAllDedup_keys sets [] m (hmemE g hg m hm) with h | ⟨d, hdm, hkey⟩
+    · simp at h
+    · rw [hkey] at hrd; exact hd d hdm rd (normalize_mem hrd)
+  have hb := builder_retrievable n groups hd' hn hsub
+  have hin : (normalizeDeltaSet ds, id) ∈ groups.flatten :=
+    hperm.mem_iff.mpr (List.mem_of_getElem? hent)
+  obtain ⟨g, hg, hmg⟩ := List.mem_flatten.mp hin
+  constructor
+  · obtain ⟨o, i, h, _⟩ := hb.1 g hg _ hmg
+    exact ⟨o, i, h⟩
+  · intro o i h
+    obtain ⟨g', hg', m, hm, hmid, hr⟩ := hb.2 id o i h
+    obtain ⟨k', hk'⟩ := List.mem_iff_getElem?.mp (hmemE g' hg' m hm)
+    have := hs.1.1 k' m hk'
+    rw [hmid] at this; subst this
+    rw [hent] at hk'
+    have hm' : m = (normalizeDeltaSet ds, id) := (Option.some.inj hk').symm
+    rw [hr, hm', normalizeDeltaSet_idem]
+
+/-- non-vacuity of the direct theorem's hypotheses. -/
+example : retrieve (buildDirect 2 [[(0, 5)], [], [(1, -40000), (0, 1)]]) 2 0 2 =
+    some (dense (normalizeDeltaSet [(1, -40000), (0, 1)]) 2) :=
+  (builder_retrievable_direct 2 [[(0, 5)], [], [(1, -40000), (0, 1)]] (by decide) (by omega)
+    (by decide) 2 (by decide)).2
 
 end FontVerif.C11
